@@ -202,10 +202,14 @@ fn case_cap_ms(tier: Tier) -> u64 {
 fn with_watchdog<R>(tier: Tier, group: &str, resolve: &(dyn Fn(u64, u64) -> String + Sync), body: impl FnOnce() -> R) -> R {
     let stop = AtomicBool::new(false);
     let cap = case_cap_ms(tier);
+    // the body signals its end through the channel so that the watchdog ends at once instead of finishing its nap
+    let (done_tx, done_rx) = std::sync::mpsc::channel::<()>();
     std::thread::scope(|sc| {
-        sc.spawn(|| {
+        sc.spawn(move || {
             while !stop.load(Ordering::Acquire) {
-                std::thread::sleep(std::time::Duration::from_millis(100));
+                if done_rx.recv_timeout(std::time::Duration::from_millis(100)).is_ok() {
+                    return;
+                }
                 let now = wd_now();
                 for s in 0..WD_SLOTS {
                     let st = WD_START[s].load(Ordering::Acquire);
@@ -240,7 +244,7 @@ fn with_watchdog<R>(tier: Tier, group: &str, resolve: &(dyn Fn(u64, u64) -> Stri
             }
         });
         let r = body();
-        stop.store(true, Ordering::Release);
+        let _ = done_tx.send(());
         r
     })
 }
@@ -251,7 +255,8 @@ fn with_watchdog<R>(tier: Tier, group: &str, resolve: &(dyn Fn(u64, u64) -> Stri
 // repeated next() delivers (a specialised fold/count/last/nth/size_hint must agree with next())
 
 /// `make` creates a fresh iterator; the reference sequence is what repeated `next()` yields (at most `limit` items,
-/// longer iterators are skipped).  From the positions 0, 1, 2, n/2, n-1, n (after that many `next()` calls) the rest
+/// longer iterators are skipped).  From every position (sequences of up to 10 items) or from the positions 0, 1, 2, 3,
+/// n/2, n-1, n (after that many `next()` calls) the rest
 /// is consumed by fold, count, last, nth(j)+next, for_each and through a clone taken at that position, and size_hint
 /// must bracket the remaining length.
 pub fn iter_protocol<I, T>(name: &str, limit: usize, make: impl Fn() -> I, obs: &mut Obs)
@@ -273,7 +278,9 @@ where
     }
     let n = reference.len();
     obs.class("iterator-protocol");
-    let mut ks = vec![0, 1, 2, n / 2, n.saturating_sub(1), n];
+    // short sequences: every position and every nth argument; longer ones: a spread of both
+    let exhaustive = n <= 10;
+    let mut ks: Vec<usize> = if exhaustive { (0..=n).collect() } else { vec![0, 1, 2, 3, n / 2, n.saturating_sub(1), n] };
     ks.sort();
     ks.dedup();
     for k in ks {
@@ -322,7 +329,7 @@ where
         if each != want {
             obs.fail("iterator-protocol", format!("{name}: after {k} items for_each yields {} items, next() yields {}", each.len(), want.len()));
         }
-        let mut js = vec![0, 1, want.len() / 2, want.len().saturating_sub(1), want.len(), want.len() + 1];
+        let mut js: Vec<usize> = if exhaustive { (0..=want.len() + 1).collect() } else { vec![0, 1, 2, want.len() / 2, want.len().saturating_sub(1), want.len(), want.len() + 1] };
         js.sort();
         js.dedup();
         for j in js {
